@@ -334,7 +334,7 @@ def build_instances(tier):
     inst = []
     inst.append(Instance('MODP primes (RFC 3526) and ECP curves (RFC 5903)', h_primes, ()))
     for g in ((14, 19, 21) if tier == 'quick' else (14, 15, 16, 17, 18, 19, 20, 21)):
-        inst.append(Instance(f'DH group {g} encodings', h_dh, (g,), engine_kw={'query_timeout_ms': 120000}))
+        inst.append(Instance(f'DH group {g} encodings', h_dh, (g,), engine_kw={'query_timeout_ms': 120000, 'max_paths': 48}))
     for name, order in SEQUENCES.items():
         inst.append(Instance(f'sequence: {name}', h_sequence, (order,)))
     sizes = {'quick': (0, 1, 19, 20, 21, 32, 33, 64, 65, 100, 224), 'thorough': tuple(range(0, 330, 1))}[tier]
